@@ -163,6 +163,14 @@ func drawCase(t *rapid.T, o gen.DataOpts, nq int) *Case {
 		if rapid.IntRange(0, 3).Draw(t, "taut") == 0 && len(pool.Cols) > 0 {
 			// a tautology keeps all rows, so that groups are as many as the data allows
 			e = model.Not(model.Eq(pool.Cols[0], "\x01never\x02"))
+		} else if i > 0 && rapid.IntRange(0, 3).Draw(t, "confuse") == 0 {
+			// a twin of an earlier expression (De Morgan, permuted siblings,
+			// repeated values ...) under a group-by list
+			var prev []model.Expr
+			for _, pq := range c.Queries {
+				prev = append(prev, pq.Expr)
+			}
+			e = pool.Confuse(t, prev, gen.ExprOpts{MaxDepth: 3})
 		} else {
 			e = pool.Expr(t, eo)
 		}
@@ -180,6 +188,11 @@ func drawCase(t *rapid.T, o gen.DataOpts, nq int) *Case {
 			long[i] = pool.Cols[rapid.IntRange(0, len(pool.Cols)-1).Draw(t, "longcol")]
 		}
 		c.Queries = append(c.Queries, Q{Expr: taut, GroupBy: long})
+		// every column of the list doubled (and tripled): [a a b b], [a a a b b]
+		if len(pool.Cols) > 1 && rapid.IntRange(0, 2).Draw(t, "doubled") == 0 {
+			a, b := pool.Cols[0], pool.Cols[1]
+			c.Queries = append(c.Queries, Q{Expr: taut, GroupBy: []string{a, a, b, b}}, Q{Expr: taut, GroupBy: []string{a, a, a, b, b}})
+		}
 		rc := pool.Cols[rapid.IntRange(0, len(pool.Cols)-1).Draw(t, "repcol")]
 		c.Queries = append(c.Queries, Q{Expr: pool.Expr(t, gen.ExprOpts{}), GroupBy: []string{rc, pool.Cols[0], rc}})
 		// a filter that restricts the grouped column itself to a list of values,
